@@ -102,7 +102,9 @@ class FileAdapter(ExternalStateAdapter):
         instance_paths = os.listdir(self.path)
 
         for instance_uuid in instance_paths:
-            instances.append(self._load_instance(instance_uuid.split(".")[0]))
+            instance = self._load_instance(instance_uuid.split(".")[0])
+            if instance is not None:
+                instances.append(instance)
 
         return instances
 
